@@ -6,6 +6,7 @@
 package pfcpiface
 
 import (
+	"strings"
 	"encoding/json"
 	"fmt"
 	"testing"
@@ -76,10 +77,11 @@ func c05Conservation(s *sessSys) []up4Viol {
 	// UE IP inventory and TEIDs
 	nUE, nTEID := 0, 0
 	for _, x := range live {
-		alloc := false
+		alloc := x.GivenUE
 		for _, p := range x.PDRs {
 			if p.AllocUE {
 				alloc = true
+				x.GivenUE = true
 			}
 			if p.ChoseTEID {
 				nTEID++
@@ -201,6 +203,10 @@ func c05Alphabet(s *sessSys) []sessReq {
 					// a default and a dedicated downlink flow, both asking the UP for the (one) UE address
 					p3 := append(append([]sPDR{}, p...), sPDR{ID: 5, Prec: 60, Src: ie.SrcInterfaceCore, UEAlloc: true, SDF: "permit out udp from 10.7.0.0/16 5000 to assigned", FAR: 2, QERs: p[1].QERs})
 					mk("est-choose-alloc-two-dl", p3, f, q)
+					if p4 {
+						// the datapath refuses an establishment that has already taken a UE address and a TEID
+						add("est-choose-alloc-write1-fails", sessReq{sReq: sReq{Kind: kEst, Conn: c, CPSEID: uint64(10 + len(s.m.Sess)), CreatePDR: p, CreateFAR: f, CreateQER: q}, FailAt: 1})
+					}
 					// rejected after the UE address was allocated and the TEID chosen: a later PDR is refused
 					p2 := append(append([]sPDR{}, p...), sPDR{ID: 9, Prec: 10, Src: ie.SrcInterfaceCore, UEIP: "16.9.9.9", BadSDF: true, FAR: 2})
 					mk("est-choose-alloc-rejected", p2, f, q)
@@ -230,6 +236,12 @@ func c05Alphabet(s *sessSys) []sessReq {
 					add("mod-ufar", sessReq{sReq: sReq{Kind: kMod, Conn: c, UpdateFAR: []sFAR{{ID: 2, Action: ActionForward, HasFwd: true, HasDst: true, Dst: ie.DstInterfaceAccess, OHCIP: f.OHCIP, OHCTEID: 0x7001}}}, Sess: x.Idx})
 				}
 				add("mod-rejected-remove-unknown", sessReq{sReq: sReq{Kind: kMod, Conn: c, RemovePDR: []uint16{99}}, Sess: x.Idx})
+				if p2 := x.pdr(2); p2 != nil && p2.AllocUE && p2.UE != 0 {
+					// the control plane repeats the address the UP allocated, explicitly, in an Update PDR
+					up := p2.sPDR
+					up.UEAlloc, up.UEIP = false, int2ip(p2.UE).String()
+					add("mod-updr-explicit-ue", sessReq{sReq: sReq{Kind: kMod, Conn: c, UpdatePDR: []sPDR{up}}, Sess: x.Idx})
+				}
 				if p1 := x.pdr(1); p1 != nil && p1.ChoseTEID {
 					add("mod-remove-choose-pdr", sessReq{sReq: sReq{Kind: kMod, Conn: c, RemovePDR: []uint16{1}}, Sess: x.Idx})
 					add("mod-rejected-remove-choose-pdr-then-unknown-far", sessReq{sReq: sReq{Kind: kMod, Conn: c, RemovePDR: []uint16{1}, RemoveFAR: []uint32{99}}, Sess: x.Idx})
@@ -291,9 +303,18 @@ func c05Oracle(c *stepCtx) {
 	if c.req.Kind == kEst || c.req.Kind == kMod || c.req.Kind == kDel {
 		s.res.outcome(fmt.Sprintf("%s-accepted=%v", c.req.Kind, c.accepted))
 	}
-	for _, v := range c05Conservation(s) {
-		if c.req.FailAt > 0 && !c.accepted {
-			// whatever resource shows it first, the cause is one: the refused establishment is not rolled back
+	vs := c05Conservation(s)
+	// what the agent itself keeps for the session (UE address, TEID, gauge unit, store record) is reported under its own
+	// name first: the missing roll-back inside the UP4 plug-in (a recorded finding) must not hide it
+	for _, v := range vs {
+		if !strings.HasPrefix(v.class, "up4-") {
+			s.violation("c05:"+v.class+":after="+c.req.Label, v.desc+" (after "+c.req.Label+")")
+			return
+		}
+	}
+	for _, v := range vs {
+		if c.req.Kind == kEst && c.req.FailAt > 0 && !c.accepted {
+			// whatever UP4 resource shows it first, the cause is one: the refused establishment is not rolled back
 			v.class = "up4-failed-establishment-not-rolled-back"
 		}
 		s.violation("c05:"+v.class+":after="+c.req.Label, v.desc+" (after "+c.req.Label+")")
